@@ -156,7 +156,7 @@ fn munit(code: u8) -> Option<MUnit> {
 }
 
 #[derive(Default)]
-struct Handles { c: Vec<(K, Counter)>, g: Vec<(K, Gauge)>, h: Vec<(K, Histogram)> }
+struct Handles { c: Vec<(K, Counter)>, g: Vec<(K, Gauge)>, h: Vec<(K, Histogram)>, known_c: Vec<K> }
 
 struct World { rec: Rec, handles: Rc<RefCell<Handles>>, describes: u64 }
 
@@ -166,6 +166,11 @@ static FULL_LOOP: AtomicBool = AtomicBool::new(false);
 /// Panics raised by implementation calls (handle operations, readout, Entry::write) since the last reset: a panic
 /// is an observation, not a crash of the harness.
 static PANICS: AtomicU64 = AtomicU64::new(0);
+/// Handle discipline of the running case. false: every registered handle is kept for the whole case (an emitter that
+/// caches its handles). true: counter handles are transient, as with the `counter!` macro — `Register` looks the key
+/// up and holds the handle, the next `CInc` of that key increments through it (or through a fresh lookup when none is
+/// held) and drops every handle of the key.  The model does not distinguish the two: a handle is its key.
+static TRANSIENT: AtomicBool = AtomicBool::new(false);
 
 fn apply(rec: &Rec, hs: &RefCell<Handles>, describes: &mut u64, l: &L) {
     if crate::common::catch(|| apply_inner(rec, hs, describes, l)).is_none() { PANICS.fetch_add(1, Ordering::Relaxed); }
@@ -182,6 +187,24 @@ fn apply_inner(rec: &Rec, hs: &RefCell<Handles>, describes: &mut u64, l: &L) {
                 0 => rec.describe_counter(kn, munit(*u), "d".into()),
                 1 => rec.describe_gauge(kn, munit(*u), "d".into()),
                 _ => rec.describe_histogram(kn, munit(*u), "d".into()),
+            }
+        }
+        L::CInc(k, n) if TRANSIENT.load(Ordering::Relaxed) => {
+            let mut held = vec![];
+            {
+                let mut b = hs.borrow_mut();
+                let mut i = 0;
+                while i < b.c.len() {
+                    if &b.c[i].0 == k { held.push(b.c.remove(i).1); } else { i += 1; }
+                }
+            }
+            let known = !held.is_empty() || hs.borrow().known_c.contains(k);
+            if known {
+                if !hs.borrow().known_c.contains(k) { hs.borrow_mut().known_c.push(k.clone()); }
+                match held.first() {
+                    Some(h) => h.increment(*n),
+                    None => rec.register_counter(&mkey(k), &META).increment(*n),
+                }
             }
         }
         L::CInc(k, n) => { if let Some((_, h)) = hs.borrow().c.iter().find(|x| &x.0 == k) { h.increment(*n); } }
@@ -260,7 +283,8 @@ fn entry_items(e: &impl Entry) -> Sx {
 }
 
 /// Runs a plan; returns the label list as it happened and the entries.
-fn execute(ez: bool, plan: &[Top]) -> (Vec<L>, Vec<Sx>) {
+fn execute(ez: bool, transient: bool, plan: &[Top]) -> (Vec<L>, Vec<Sx>) {
+    TRANSIENT.store(transient, Ordering::Relaxed);
     let rec: Rec = if ez { MetricRecorder::new_with_emit_zero_counters(true) } else if plan.len() % 2 == 0 { MetricRecorder::new() } else { MetricRecorder::new_with_emit_zero_counters(false) };
     let handles = Rc::new(RefCell::new(Handles::default()));
     let mut describes = 0u64;
@@ -318,10 +342,13 @@ fn execute(ez: bool, plan: &[Top]) -> (Vec<L>, Vec<Sx>) {
     (t, entries)
 }
 
-fn run_case(ez: bool, plan: &[Top], out: &mut Out) -> (Sx, Sx, bool) {
+fn run_case(ez: bool, transient: bool, plan: &[Top], out: &mut Out) -> (Sx, Sx, bool) {
     PANICS.store(0, Ordering::Relaxed);
-    let (labels, entries) = execute(ez, plan);
-    let case = Sx::L(vec![sx::boolean(ez), Sx::L(labels.iter().map(enc_label).collect())]);
+    let (labels, entries) = execute(ez, transient, plan);
+    // the third element (handle discipline) is read by the harness only: the model's answer does not depend on it
+    let mut cv = vec![sx::boolean(ez), Sx::L(labels.iter().map(enc_label).collect())];
+    if transient { cv.push(sx::boolean(true)); }
+    let case = Sx::L(cv);
     let panics = PANICS.load(Ordering::Relaxed);
     if panics > 0 {
         out.count("cases_with_implementation_panic");
@@ -405,6 +432,68 @@ fn gen_plan(rng: &mut Rng, thorough: bool) -> Vec<Top> {
     ts += 1;
     plan.push(Top::Readout { ts, during: BTreeMap::new() });
     plan
+}
+
+/// Like `gen_plan`, for the transient handle discipline: counters only get re-acquired (`Register` of a known key)
+/// between other operations and between the steps of a readout.
+fn gen_plan_transient(rng: &mut Rng, thorough: bool) -> Vec<Top> {
+    let plan = gen_plan(rng, thorough);
+    let mut seen: Vec<K> = vec![];
+    let mut res = vec![];
+    for t in plan {
+        match t {
+            Top::Op(L::Register(0, k)) => {
+                if !seen.contains(&k) { seen.push(k.clone()); }
+                res.push(Top::Op(L::Register(0, k)));
+            }
+            Top::Readout { ts, mut during } => {
+                // only keys registered before this readout (a registration racing with the registry's visit is
+                // outside the model)
+                if !seen.is_empty() {
+                    for _ in 0..rng.below(4) {
+                        let k = rng.pick(&seen).clone();
+                        during.entry(rng.below(seen.len() as u64 + 3) as usize).or_default().push(L::Register(0, k));
+                    }
+                }
+                res.push(Top::Readout { ts, during });
+            }
+            other => {
+                if !seen.is_empty() && rng.chance(1, 6) { res.push(Top::Op(L::Register(0, rng.pick(&seen).clone()))); }
+                res.push(other);
+            }
+        }
+    }
+    res
+}
+
+/// Three counters; before the first readout some are incremented; during it one key is looked up at a chosen step;
+/// after it that key is incremented through the handle obtained during the readout; a second readout must report it.
+fn stale_handle_plans() -> Vec<Vec<Top>> {
+    let keys: Vec<K> = key_pool().into_iter().take(3).collect();
+    let mut plans = vec![];
+    for busy in 0..8u32 {
+        for target in 0..3usize {
+            for point in 0..6usize {
+                for inc_inside in [false, true] {
+                    let mut plan: Vec<Top> = keys.iter().map(|k| Top::Op(L::Register(0, k.clone()))).collect();
+                    // drop the registration handles: an increment of 0 uses and releases them
+                    for k in &keys { plan.push(Top::Op(L::CInc(k.clone(), 0))); }
+                    for (j, k) in keys.iter().enumerate() {
+                        if busy & (1 << j) != 0 { plan.push(Top::Op(L::CInc(k.clone(), 3 + j as u64))); }
+                    }
+                    let mut during: BTreeMap<usize, Vec<L>> = BTreeMap::new();
+                    during.entry(point).or_default().push(L::Register(0, keys[target].clone()));
+                    if inc_inside { during.entry(point + 1).or_default().push(L::CInc(keys[target].clone(), 5)); }
+                    plan.push(Top::Readout { ts: 1_000_000_000, during });
+                    if !inc_inside { plan.push(Top::Op(L::CInc(keys[target].clone(), 5))); }
+                    plan.push(Top::Readout { ts: 2_000_000_000, during: BTreeMap::new() });
+                    plan.push(Top::Readout { ts: 3_000_000_000, during: BTreeMap::new() });
+                    plans.push(plan);
+                }
+            }
+        }
+    }
+    plans
 }
 
 fn count_plan(out: &mut Out, labels: &[Sx]) {
@@ -588,8 +677,14 @@ pub fn run(ctx: &Ctx) {
     // the release profile (wrapping arithmetic, no debug assertions) has its own suite: value computations only
     let release = ctx.extra.windows(2).any(|w| w[0] == "--profile" && w[1] == "release");
     let mut out = Out::new(ctx, if release { "-rel" } else { "" });
+    let emit_t = |out: &mut Out, ez: bool, transient: bool, plan: &[Top]| {
+        let (case, imp, nt) = run_case(ez, transient, plan, out);
+        if transient { out.count("cases_with_transient_counter_handles"); }
+        count_plan(out, case.list()[1].list());
+        out.case(&case, &imp, nt);
+    };
     let emit = |out: &mut Out, ez: bool, plan: &[Top]| {
-        let (case, imp, nt) = run_case(ez, plan, out);
+        let (case, imp, nt) = run_case(ez, false, plan, out);
         count_plan(out, case.list()[1].list());
         out.case(&case, &imp, nt);
     };
@@ -597,7 +692,8 @@ pub fn run(ctx: &Ctx) {
         for line in std::fs::read_to_string(p).unwrap().lines().filter(|l| l.starts_with('(')) {
             let c = sx::parse(line);
             let labels: Vec<L> = c.list()[1].list().iter().map(dec_label).collect();
-            emit(&mut out, c.list()[0].num() != 0, &plan_of(&labels));
+            let transient = c.list().len() > 2 && c.list()[2].num() != 0;
+            emit_t(&mut out, c.list()[0].num() != 0, transient, &plan_of(&labels));
         }
         out.finish("replay");
         return;
@@ -620,6 +716,17 @@ pub fn run(ctx: &Ctx) {
     for i in 0..(if thorough { 8000 } else { 2000 }) {
         let plan = gen_plan(&mut rng, thorough);
         emit(&mut out, i % 3 == 0, &plan);
+    }
+    // transient counter handles (lookup per increment, as the counter! macro does): random plans in which a key is also
+    // looked up again (`Register` of a registered key = acquiring a handle) at any point, also inside readouts
+    for i in 0..(if thorough { 4000 } else { 800 }) {
+        let plan = gen_plan_transient(&mut rng, thorough);
+        emit_t(&mut out, i % 4 == 0, true, &plan);
+    }
+    // a handle acquired at every step of a readout and used after it, for every key, with the other keys idle or not
+    for plan in stale_handle_plans() {
+        out.count("stale_handle_plans");
+        emit_t(&mut out, false, true, &plan);
     }
     if thorough {
         // the u32 witness once with 2^32 real record() calls (no bulk accessor): about 40 s
